@@ -287,3 +287,9 @@ def run(ctx):
     # the worker-argument selection rule is shared with C10 (delete/move act on the selection it builds)
     from .C10 import rule_args
     ctx.attempt(rule_args, ctx)
+    # names of written / moved files come from get_filename (C02.table), and move() returns a
+    # destination fileset whose path was re-assigned (C01.pathstate)
+    from .C02 import rule_table
+    from .C01 import rule_pathstate
+    ctx.attempt(rule_table, ctx)
+    ctx.attempt(rule_pathstate, ctx, "C01.pathstate")
